@@ -644,5 +644,6 @@ pub fn parts() -> Vec<Box<dyn PartDyn>> {
         enumerate: None,
         shrink_budget: 200,
         confirm_runs: 2,
+            fuzz: None,
     })]
 }
